@@ -364,7 +364,10 @@ Proof.
     pose proof (call_13 (r_cfg r) (lookup r) (r_now r) (r_dealer r) s req opts proc args kw oracle Wd LOK NW) as CF.
     destruct (call _ _ _ _ _ _ _ _ _ _ _) as [d o|o|d1 callee' o] eqn:Ecall.
     + exact CN.
-    + pose proof (leave_nd r (s_id s) W N) as L. destruct (leave r (s_id s)). exact L.
+    + destruct (call_abort_realm_wf r s req opts proc oracle k W I) as (Wa & _ & _). cbv zeta in Wa.
+      pose proof (call_abort_dealer_tables (lookup r) (r_dealer r) s req opts proc oracle) as (_ & Ei & _ & Et).
+      match goal with |- context [leave ?R (s_id s)] =>
+        pose proof (leave_nd R (s_id s) Wa (nd_same _ _ Ei Et N)) as L; destruct (leave R (s_id s)) end. exact L.
     + destruct CF as (y & i & rid & det & Eo & Ey & _).
       destruct (call_invoked_wf r s req opts proc args kw oracle k d1 callee' o W I Hk Hs Ecall)
         as (W2 & J2 & _ & _ & Hcl).
